@@ -3,7 +3,8 @@
    (i, j, impl (==,cmp,hash), model, structurally equal),
    the ids whose recorded hash stream differs from hash_raw, pairs whose dump/term identity is off,
    the failing descriptor pairs (i, j, impl (==,cmp), model),
-   and the failing descriptor pairs under a history (i, j, left warmed, right warmed). *)
-From Verif Require Import EqOrdRun EqOrdDescRun EqOrdCasesGen.
+   the failing descriptor pairs under a history (i, j, left warmed, right warmed),
+   and per policy domain (concrete, semantic) the failing pairs (i, j, impl (==,cmp), model). *)
+From Verif Require Import EqOrdRun EqOrdDescRun EqOrdPolRun EqOrdCasesGen.
 
-Eval vm_compute in (map dom_diag doms, map dom_stream_diag doms, map dom_spec_diag doms, deqdom_diag ddom_eq, deqdom_wdiag ddom_eq).
+Eval vm_compute in (map dom_diag doms, map dom_stream_diag doms, map dom_spec_diag doms, deqdom_diag ddom_eq, deqdom_wdiag ddom_eq, map poldom_diag poldoms).
